@@ -82,6 +82,9 @@ pub struct PortState {
     pub fail_flush: Option<io::ErrorKind>,
     pub write_block: Option<Duration>,
     pub read_block: Option<Duration>,
+    /// the sink implements write_vectored itself and gathers across the slices it is offered (like a file or socket);
+    /// false = only write() is implemented and write_vectored is std's default (first non-empty slice)
+    pub gather: bool,
 }
 
 pub fn weird_settings() -> PortSettings {
@@ -140,6 +143,7 @@ impl PortState {
             fail_flush: None,
             write_block: None,
             read_block: None,
+            gather: false,
         }
     }
 }
@@ -202,6 +206,16 @@ impl Read for TestPort {
 }
 
 impl Write for TestPort {
+    fn write_vectored(&mut self, bufs: &[io::IoSlice<'_>]) -> io::Result<usize> {
+        if self.st.borrow().gather {
+            let all: Vec<u8> = bufs.iter().flat_map(|b| b.iter().copied()).collect();
+            self.write(&all)
+        } else {
+            let first = bufs.iter().find(|b| !b.is_empty()).map(|b| &**b).unwrap_or(&[][..]);
+            self.write(first)
+        }
+    }
+
     fn write(&mut self, buf: &[u8]) -> io::Result<usize> {
         let started = Instant::now();
         let mut s = self.st.borrow_mut();
